@@ -368,7 +368,7 @@ def lean_mval(v) -> str:
     if isinstance(v, float):
         return "(.f64 0x%016x)" % cl.f64_bits(v)
     if isinstance(v, str):
-        return f"(.str {lean_str(v)})"
+        return f"(.str {lean_bytes(v.encode('utf8'))})"
     if isinstance(v, bytes):
         return f"(.bin {lean_bytes(v)})"
     if isinstance(v, (list, tuple)):
